@@ -182,7 +182,7 @@ func indexOfOp(b *ibtpBlock, op *ibtpOp) int {
 func statusProperty(prop string) func(t *rapid.T) {
 	return func(t *rapid.T) {
 		audit := rapid.Bool().Draw(t, "audit")
-		nPairs := rapid.IntRange(1, 5).Draw(t, "pairs")
+		nPairs := rapid.IntRange(1, 6).Draw(t, "pairs")
 		s := newIBTPScenario(t, prop, audit, nPairs)
 		defer s.close()
 		p := &statusProp{s: s, checkFSM: true, checkTO: prop == "C06", lastRaw: map[string][]byte{}}
